@@ -29,9 +29,11 @@ LEVEL_TEXT = ("Held on the executions observed: thousands (quick) to ~10^5 (thor
               "Positions of single operations are enumerated completely for sampled base histories; histories "
               "themselves are sampled. Not a proof for histories/positions not generated.")
 LEVEL_NOTE = ("Trusted: TorSim (model + owed notifications), FakeTor, reply encoder, the registration model in this "
-              "file. Listener add/remove happens between deliveries, never inside a callback.")
+              "file. Listeners are added between deliveries and - state-wide only - from inside another listener's "
+              "circuit_new / stream_new callback; removal happens between deliveries and inside callbacks.")
 RULE = ("a case = C07 population + history (<= 30 model steps) + a set of operations spliced between the steps: "
-        "add global listener / listen on one object / unlisten / when_built / when_closed / Circuit.close / "
+        "add global listener / arm a global listener to add another one state-wide from inside its next circuit_new or "
+        "stream_new callback / listen on one object / unlisten / when_built / when_closed / Circuit.close / "
         "Stream.close / state.close_* (each close with an order: together | event first, ack held n steps | ack "
         "first, event n steps later; optionally IfUnused). Distinct = hash of the whole script. Non-trivial = at "
         "least one listener call or one Deferred outcome was compared with the reference.")
@@ -45,7 +47,11 @@ ASSUMPTIONS = [
     "must hold exactly the hops of that BUILT line",
     "a SENTCONNECT on another circuit with no DETACHED before it: whether stream_attach is announced for it is not "
     "judged; the later transitions of the stream are",
-    "listeners are ADDED between deliveries only; removal also happens inside callbacks: a listener double unlistens "
+    "listeners are ADDED between deliveries, with one exception: a state-wide listener double may call "
+    "add_circuit_listener / add_stream_listener for another double from inside its circuit_new / stream_new callback, i.e. "
+    "while the first line of a new object is being delivered (the earliest position 'after the object appeared'); the "
+    "double added that way is not judged for the lines of that delivery and is owed every later transition of every "
+    "live object, the new one included. Removal also happens inside callbacks: a listener double unlistens "
     "itself or another listener from the object while a line is being delivered. A listener nobody removed during "
     "that delivery is owed exactly one notification per transition of the line; the removed one is not judged for "
     "that line and is owed nothing afterwards",
@@ -108,6 +114,7 @@ FLOORS = {
               "unlistened_inside_callback_self": 50, "unlistened_inside_callback_another_listener": 10,
               "listener_exceptions_raised": 20, "close_requests_to_be_refused": 60, "waits_meddled_pending": 130,
               "waits_meddled_cancel": 70, "close_ack_late_then_event": 100,
+              "listeners_added_inside_new_callback_circuit": 8, "listeners_added_inside_new_callback_stream": 12, "listeners_armed_to_add_inside_new_callback": 40,
               "reach:txtorcon.circuit:Circuit.close": 450, "reach:txtorcon.stream:Stream.close": 450,
               "reach:txtorcon.circuit:Circuit.when_built": 250, "reach:txtorcon.util:SingleObserver.fire": 2100,
               "reach:txtorcon.stream:Stream._notify": 2100},
@@ -139,8 +146,23 @@ def wire_or_plain(v):
     return (v,)
 
 
-def make_listeners(log, raises, built_fired, drops):
+def make_listeners(log, raises, built_fired, drops, adds=None, ctx=None):
     peers = {}
+    adds = [] if adds is None else adds
+
+    def add_inside(okind, me, obj):
+        """inside the circuit_new / stream_new callback of listener `me`: register another double
+        state-wide ('start watching once the first one shows up')"""
+        j, me.adding = me.adding, None
+        if ctx is None or j in ctx.globals[okind] or j in ctx.added_inside[okind]:
+            adds.append(("+", okind, me.idx, obj, j, False))
+            return
+        ctx.added_inside[okind].add(j)
+        if okind == "c":
+            ctx.state.add_circuit_listener(peers["c"][j])
+        else:
+            ctx.state.add_stream_listener(peers["s"][j])
+        adds.append(("+", okind, me.idx, obj, j, True))
     from txtorcon.interface import ICircuitListener, IStreamListener
 
     @implementer(ICircuitListener)
@@ -150,6 +172,7 @@ def make_listeners(log, raises, built_fired, drops):
             self.raising = 0          # raise from the next n callbacks (after recording them)
             self.dropping = 0         # unlisten (self or the victim) from the object inside the next n callbacks
             self.victim = None
+            self.adding = None        # index of the double to register state-wide inside the next circuit_new / stream_new
 
         def _after(self, obj):
             if self.dropping > 0:
@@ -179,6 +202,8 @@ def make_listeners(log, raises, built_fired, drops):
                 circuit.when_built().addCallbacks(
                     lambda c, o=circuit: built_fired.append((o, tuple(getattr(r, "id_hex", None) for r in o.path))),
                     lambda f: None)
+            if self.adding is not None:
+                add_inside("c", self, circuit)
             self._after(circuit)
 
         def circuit_launched(self, circuit):
@@ -209,6 +234,7 @@ def make_listeners(log, raises, built_fired, drops):
             self.raising = 0          # raise from the next n callbacks (after recording them)
             self.dropping = 0         # unlisten (self or the victim) from the object inside the next n callbacks
             self.victim = None
+            self.adding = None        # index of the double to register state-wide inside the next circuit_new / stream_new
 
         def _after(self, obj):
             if self.dropping > 0:
@@ -233,6 +259,8 @@ def make_listeners(log, raises, built_fired, drops):
 
         def stream_new(self, stream):
             log.append(("s", self.idx, "stream_new", stream, None, None))
+            if self.adding is not None:
+                add_inside("s", self, stream)
             self._after(stream)
 
         def stream_succeeded(self, stream):
@@ -303,6 +331,10 @@ class Engine(object):
         self.circuit_objects_created = 0       # by TorState, after the bootstrap
         self.circuit_first_sights = 0          # circuits Tor reported for the first time, after the bootstrap
         self.drops = []                        # (kind, actor, object, target, done) unlisten calls made inside callbacks
+        # (self.drops also holds, in the order they happened, ("+", kind, actor, object, target, done): state-wide
+        # registrations made inside circuit_new / stream_new)
+        self.armed = {"c": {}, "s": {}}         # kind -> listener -> double it registers inside its next *_new callback
+        self.added_inside = {"c": set(), "s": set()}   # doubles registered from inside a callback so far (real run)
         self.dropped_inside = False            # ... some during the delivery being judged
         self.raises = []                       # (kind, listener) each time a double raised, per delivery
         self.raise_uids = set()                # objects during whose notification a listener raised
@@ -381,7 +413,8 @@ class Engine(object):
             self.tor.subscribed = {"CIRC", "STREAM"}
             self.ses = None
         else:
-            self.clisteners, self.slisteners = make_listeners(self.log, self.raises, self.built_fired, self.drops)
+            self.clisteners, self.slisteners = make_listeners(self.log, self.raises, self.built_fired, self.drops,
+                                                               self.drops, self)
 
             def before(state):
                 for i in sorted(self.globals["c"]):
@@ -519,6 +552,14 @@ class Engine(object):
                 lst = (self.clisteners if op["k"] == "c" else self.slisteners)[op["l"]]
                 lst.dropping = int(op.get("n", 1))
                 lst.victim = op.get("victim")
+            return
+        if k == "gl+in":
+            # listener l (registered state-wide) will register double `add` state-wide from inside the next
+            # circuit_new / stream_new it receives, i.e. while the first line of a new object is being delivered
+            self.count("listeners_armed_to_add_inside_new_callback")
+            self.armed[op["k"]][op["l"]] = op["add"]
+            if not self.dry:
+                (self.clisteners if op["k"] == "c" else self.slisteners)[op["l"]].adding = op["add"]
             return
         if k == "raise":
             self.count("listeners_armed_to_raise")
@@ -698,6 +739,26 @@ class Engine(object):
             self.rec.seen("wait_request_moments", "%s@%s" % (kind, requested))
         return w
 
+    def added_inside_callback(self, okind, actor, j, evs):
+        """double j was registered state-wide from inside actor's circuit_new / stream_new: like 'gl+' it is owed
+        every later transition of every live object - including the one whose first line was being delivered;
+        for the lines of the delivery it was registered in it is not judged"""
+        self.armed[okind].pop(actor, None)
+        self.globals[okind].add(j)
+        scope = "global-added-inside-%s-of-another-listener" % ("circuit_new" if okind == "c" else "stream_new")
+        n = 0
+        for uid in self.live_uids(okind):
+            r = self.reg[okind].setdefault(uid, {})
+            if j not in r:
+                r[j] = scope
+                n += 1
+        for ev in evs:
+            if ("c" if ev.kind == "CIRC" else "s") == okind:
+                self.unjudged.add((okind, j, ev.uid))
+        self.count("listeners_added_inside_new_callback")
+        self.count("listeners_added_inside_new_callback_" + ("circuit" if okind == "c" else "stream"))
+        self.count("listeners_added_after_object", n)
+
     # ---- after every delivery -----------------------------------------------------
     def after_delivery(self, label):
         evs, self.collected[:] = list(self.collected), []
@@ -751,6 +812,16 @@ class Engine(object):
             if ev.gone:
                 self.close_log.setdefault((okind, ev.uid), []).append("event")
         if self.dry:
+            # prediction of the registrations armed listeners make inside circuit_new / stream_new
+            for ev in evs:
+                k = "c" if ev.kind == "CIRC" else "s"
+                if ev.snapshot or not self.armed[k] or not any(x[0] in ("circuit_new", "stream_new") for x in ev.expect):
+                    continue
+                for actor in sorted(self.armed[k]):
+                    if actor in self.reg[k].get(ev.uid, {}):
+                        j = self.armed[k].pop(actor)
+                        if j not in self.globals[k]:
+                            self.added_inside_callback(k, actor, j, evs)
             for ev in evs:
                 if ev.gone:
                     k = "c" if ev.kind == "CIRC" else "s"
@@ -772,7 +843,16 @@ class Engine(object):
         calls, self.log[:] = list(self.log), []
         drops, self.drops[:] = list(self.drops), []
         self.dropped_inside = False
-        for (okind, actor, obj, target, done) in drops:
+        for entry in drops:
+            if entry[0] == "+":
+                _, okind, actor, obj, j, done = entry
+                if done:
+                    self.added_inside_callback(okind, actor, j, evs)
+                else:
+                    self.armed[okind].pop(actor, None)
+                    self.count("adds_inside_callback_skipped_already_registered")
+                continue
+            (okind, actor, obj, target, done) = entry
             if not done:
                 continue
             who = self.rev.get(id(obj))
@@ -1120,6 +1200,13 @@ def random_op(rnd, eng):
         return {"op": "selfdrop", "k": rnd.choice("cs"), "l": l, "n": rnd.choice([1, 2, 3, 4]), "victim": victim}
     if r < 0.145:
         return {"op": "raise", "k": rnd.choice("cs"), "l": rnd.randrange(N_LISTENERS), "n": rnd.choice([1, 1, 2, 3])}
+    if 0.19 <= r < 0.22:
+        # a state-wide listener that registers another double state-wide from inside circuit_new / stream_new
+        okind = rnd.choice("ccs")
+        actors = sorted(eng.globals[okind])
+        targets = [j for j in range(N_LISTENERS) if j not in eng.globals[okind]]
+        if actors and targets:
+            return {"op": "gl+in", "k": okind, "l": rnd.choice(actors), "add": rnd.choice(targets)}
     if r < 0.22:
         return {"op": "gl+", "k": rnd.choice("cs"), "l": rnd.randrange(N_LISTENERS)}
     if r < 0.30:
@@ -1276,6 +1363,7 @@ OP_TEMPLATES = [
     [{"op": "selfdrop", "l": 0, "n": 2, "victim": 1}],
     [{"op": "gl+", "l": 0}], [{"op": "ol+", "l": 1}], [{"op": "gl+", "l": 0}, {"op": "ol-", "l": 0}],
     [{"op": "ol+", "l": 2}, {"op": "ol-", "l": 2}],
+    [{"op": "gl+", "l": 0}, {"op": "gl+in", "l": 0, "add": 2}],
 ]
 S_TEMPLATES = [
     [{"op": "sclose", "via": "object", "order": "ack-first", "hold": 1}],
@@ -1292,6 +1380,7 @@ S_TEMPLATES = [
     [{"op": "selfdrop", "l": 0, "n": 3, "victim": None}],
     [{"op": "selfdrop", "l": 0, "n": 2, "victim": 1}],
     [{"op": "gl+", "l": 0}], [{"op": "ol+", "l": 1}], [{"op": "gl+", "l": 0}, {"op": "ol-", "l": 0}],
+    [{"op": "gl+", "l": 0}, {"op": "gl+in", "l": 0, "add": 2}],
 ]
 
 
